@@ -33,6 +33,12 @@ def scenarios(quick):
             fns = [[fn(1, "R0", "E2", True)] * 2, [fn(2, "R0", "E1", True)] * 2, [fn(2, "R0", "E1", True)] * 2, [fn(1, "R1", None, True)] * 2]
             out.append(scenario(st, fns, [start(1, 0), start(2, 3), start(3, 6), start(4, 9)]))
             out.append(scenario(st, fns, [start(1, 0), start(2, 3), start(3, 3), start(4, 7, True)]))
+    # rate-based breaker, two trial executions allowed: a trial that finished has handed its permit back while another is in flight
+    rate = dict(fthr=0, fcap=0, frate=50, fexec=2, period=20, sthr=0, scap=0, delay=2)
+    for d3 in (1, 3):
+        for t5 in (5, 6):
+            fns = [[fn(1, "R0", "E1", True)] * 2, [fn(1, "R0", "E1", True)] * 2, [fn(d3, "R1", None, True)] * 2, [fn(4, "R1", None, True)] * 2, [fn(1, "R1", None, True)] * 2]
+            out.append(scenario([cb("c", rate)], fns, [start(1, 0), start(2, 1), start(3, 4), start(4, t5), start(5, t5 + 1, True)]))
     # a delay function: the breaker stays open for what the function asks for - when it first opens and when a failed trial re-opens it
     for dfn in (4, 1):
         for t4 in (8, 9, 10):
@@ -67,7 +73,7 @@ def run(ctx):
     tmc.model_check(ctx, "cb", model_scenarios(), ["MC_NoStuckThread", "MC_AllReturn", "MC_C04", "MC_TrialPermits"])
     scs = scenarios(ctx.tier == "quick")
     if ctx.tier == "quick":      # several concurrent executions make validation expensive: every 6th scenario, offset by the seed
-        scs = scs[ctx.seed % 6::6] + scs[-36:]
+        scs = scs[ctx.seed % 6::6] + scs[-40:]
     p_c07.run_family(ctx, "cb", scs, props=("C04",))
     # time-based breakers with a short open delay under retries that wait (sequential machine, direction A): rejected while
     # open, the trial after the delay, re-opening / closing inside one execution and across successive executions
